@@ -136,3 +136,67 @@ def check_edge_bookkeeping(rep, prop='C13'):
     eng = EdgeEngine(inline_ok=lambda f: False, unknown_ok=True)
     FuncVC(rep, prop, LT.LoadTracer.run, name, eng, own_kinds=None).run(start, post, None)
     rep.assume('edge bookkeeping: 0 <= state[1] <= max_index on entry and edges has max_index + 1 entries (established by get_edges / next_block; not under VC)')
+
+
+def check_fast_load_bookkeeping(rep, prop='C13'):
+    """The statement of LoadTracer.run that follows a successful fast load (located by its guard): the tape position
+    becomes the last edge of the block just loaded; if that is the final edge of the tape the tape is stopped, otherwise it
+    keeps running and both the clock and the next-edge time are set to that edge."""
+    import skoolkit.loadtracer as LT
+    W = poly.W
+    node, _ = func_ast(LT.LoadTracer.run)
+    found = [n for n in ast.walk(node) if isinstance(n, ast.If) and 'self.fast_load(simulator)' in ast.unparse(n.test) and '0x0556' in ast.unparse(n.test).lower().replace('1366', '0x0556')]
+    if len(found) != 1:
+        found = [n for n in ast.walk(node) if isinstance(n, ast.If) and 'self.fast_load(simulator)' in ast.unparse(n.test)]
+    if len(found) != 1:
+        rep.downgraded.append({'function': 'skoolkit.loadtracer.LoadTracer.run[after fast load]', 'reason': 'statement not found'})
+        return
+    stmts = found[0].body
+    name = 'skoolkit.loadtracer.LoadTracer.run[after fast load]'
+    BIG = 1 << 36
+
+    def start(eng):
+        p = eng.path
+        p.maxi = SV(z3.BitVec('max_index', W), 0, 1 << 24)
+        p.s3 = SV(z3.BitVec('block_end_index', W), 0, 1 << 24)
+        p.t = SV(z3.BitVec('tstates', W), 0, BIG)
+        for x in (p.maxi, p.s3, p.t):
+            p.facts.append(z3.And(x.t >= x.lo, x.t <= x.hi))
+        p.facts.append(p.s3.t <= p.maxi.t)
+        p.edges = SymMem('edges', size=p.maxi + 1)
+        regs = [SV(z3.BitVec('r%d' % i, W), 0, BIG) for i in range(30)]
+        for r in regs:
+            p.facts.append(z3.And(r.t >= 0, r.t <= BIG))
+        p.regs0 = list(regs)
+        p.reglist = SymList(regs, 'registers')
+        p.state0 = [SV(z3.BitVec('state%d' % i, W), 0, BIG) for i in range(10)]
+        for x in p.state0:
+            p.facts.append(z3.And(x.t >= 0, x.t <= BIG))
+        p.state0[3] = p.s3
+        p.state = SymList(list(p.state0), 'state')
+        p.called = []
+        me = ObjModel(None, name='tracer', cls=LT.LoadTracer)
+        me.attrs['state'] = p.state
+        me.attrs['stop_tape'] = CallModel(lambda e, a, k, n: p.called.append('stop_tape'), 'stop_tape')
+        p.locs = {'self': me, 'state': p.state, 'registers': p.reglist, 'edges': p.edges, 'max_index': p.maxi, 'tstates': p.t,
+                  'frame_duration': 69888, 'int_active': 32, 'simulator': UNK, 'pc': 0x0556}
+        eng.run_stmts(LT.LoadTracer.run, stmts, p.locs)
+
+    def post(p, prove):
+        st = p.state.items
+        prove('post.position_is_the_last_edge_of_the_block', cmpop('==', st[1], p.s3))
+        last = cmpop('==', p.s3, p.maxi)
+        edge = SV(z3.Select(p.edges.arr0, sv(p.s3).t), 0, BIG)
+        if 'stop_tape' in p.called:
+            prove('post.stop_tape_only_after_the_final_block', last)
+            prove('post.clock_untouched', p.reglist.items[25] is p.regs0[25])
+        else:
+            prove('post.not_final', not_(last))
+            prove('post.tape_running', cmpop('==', st[4], 1))
+            prove('post.clock_at_that_edge', cmpop('==', p.reglist.items[25], edge))
+            prove('post.next_edge_time_is_that_edge', cmpop('==', st[0], edge))
+        for i in range(30):
+            if i != 25:
+                prove('frame.registers[%d]' % i, p.reglist.items[i] is p.regs0[i])
+    eng = EdgeEngine(inline_ok=lambda f: False, unknown_ok=True)
+    FuncVC(rep, prop, LT.LoadTracer.run, name, eng).run(start, post, None)
